@@ -230,7 +230,7 @@ def conversion_plan(tier, rng):
         plan.append(([pool[rng.randrange(4)]() for _ in range(3)], [0], rng.choice(["plain", "diag", "dmcm"]), True, 6 if q else 40))
     # the 15-qubit CNOT pattern (13 measurements, 8192 branches)
     for k, pre in enumerate(([], [g_p("X", 0)], [g_p("X", 1)], [g_p("X", 0), g_p("Y", 1)])):
-        exhaustive = (not q) and k in (0, 3)
+        exhaustive = (not q) and k == 3       # all 8192 branches (~0.6M TLC states)
         plan.append((pre + [g_cnot(0, 1)], [0, 1], "plain" if k % 2 == 0 else "diag", True, 0 if exhaustive else (10 if q else 60)))
     two = [[g_h(0), g_cnot(0, 1)],
            [g_h(1), g_cnot(0, 1), g_s(0)],
@@ -366,7 +366,7 @@ def run_conversion(tier, rng, viol, cov):
                                          f"{' x=' + str(m.get('x')) if 'x' in m else ''}): {len(badl)} of {len(ls)} outcome branches do not carry "
                                          f"the logical state of the original circuit ({badl[0]})",
                                   replay={"case": cases[k], "meta": m}))
-        elif len(samples) < 4 and m["kind"] in ("all-branches", "offline") and len(m["circuit"]) > 3:
+        elif (m["kind"], m["nmeas"]) not in {(s_["kind"], s_["measurements"]) for s_ in samples} and len(samples) < 5:
             samples.append({"circuit": m["circuit"], "variant": m["variant"], "kind": m["kind"], "measurements": m["nmeas"],
                             "register_wires": cases[k]["n"], "instructions": len(cases[k]["ops"]), "branches_ok": len(ls)})
     nneg = 0
